@@ -40,7 +40,18 @@ def menus(cls):
     return m
 
 
-XPOOL = {'0': 0.0, '1': 1.0, 'm': -3.7, 'big': 1e4, 'arr': (2.0, -50.0), 'arr0': (0.0, 3.0)}
+XPOOL = {'0': 0.0, '1': 1.0, 'm': -3.7, 'big': 1e4, 'arr': (2.0, -50.0), 'arr0': (0.0, 3.0),
+         # the same kind of point with integer type: the documented sequence depends on the value of x only
+         'int': ('py-int', 3), 'iarr': ('int-arr', (2, -50))}
+
+
+def lib_x(xv):
+    """the object handed to the library for a pool entry"""
+    if isinstance(xv, tuple) and xv and xv[0] == 'py-int':
+        return int(xv[1])
+    if isinstance(xv, tuple) and xv and xv[0] == 'int-arr':
+        return np.array(xv[1], dtype=np.int64)
+    return np.asarray(_val(('arr', xv)) if isinstance(xv, tuple) else xv, dtype=float)
 
 
 def nord_pool(ctx):
@@ -84,7 +95,8 @@ def compare(lib_steps, model_steps, ratio, exps):
 
 def one_case(cls, opts, method, n, order, xv):
     """Returns (status, text).  status in ok / skip / bad"""
-    x = np.asarray(_val(('arr', xv)) if isinstance(xv, tuple) else xv, dtype=float)
+    xl = lib_x(xv)
+    x = np.asarray(xl, dtype=float)          # the model works on the value
     mopts = {k: _val(v) for k, v in opts.items()}
     bs = mopts.get('base_step')
     if isinstance(bs, np.ndarray) and x.ndim == 1 and x.shape != bs.shape:
@@ -95,7 +107,7 @@ def one_case(cls, opts, method, n, order, xv):
         return 'skip', ''
     try:
         gen = lib_generator(cls, opts)
-        lib = list(gen(x, method, n, order))
+        lib = list(gen(xl, method, n, order))
     except Exception as e:
         return 'bad', 'raised %s: %s' % (type(e).__name__, e)
     txt = compare(lib, model, ratio, exps)
@@ -234,9 +246,9 @@ def run(ctx):
                 pass  # dtheta without spiral path must have no effect - still checked
             vectors.append((cls, opts))
     nords = nord_pool(ctx)
-    xkeys = ['0', '1', 'm', 'big', 'arr', 'arr0']
+    xkeys = ['0', '1', 'm', 'big', 'arr', 'arr0', 'int', 'iarr']
     if ctx.quick:
-        xkeys = ctx.rotate(['0', '1', 'm', 'big'], 2) + ['arr']
+        xkeys = ctx.rotate(['0', '1', 'm', 'big'], 2) + ['arr'] + ctx.rotate(['int', 'iarr'], 1)
     acc = ctx.pmap(work, vectors, chunk=8 if ctx.quick else 16, nords=nords, xkeys=xkeys)
 
     cells = [(m, n, o) for m in METHODS for n in range(1, 11) for o in range(1, 11)
